@@ -2,6 +2,7 @@ package rules
 
 import (
 	"fmt"
+	"go/types"
 
 	"golang.org/x/tools/go/ssa"
 
@@ -115,11 +116,19 @@ func (c *Ctx) matchAnalysis() (*pta.Analysis, []*ssa.Function) {
 				r[i] = pta.RootSpec{Name: "matcher", Levels: 3}
 				continue
 			}
-			switch p.Name() {
-			case "pattern", "fact":
-				r[i] = pta.RootSpec{Name: p.Name(), Levels: 2}
-			case "bindings":
+			if isBindingsT(p.Type()) {
 				r[i] = pta.RootSpec{Name: "bindings", Levels: 2}
+				continue
+			}
+			if it, ok := p.Type().Underlying().(*types.Interface); ok && it.NumMethods() == 0 {
+				// the API is (pattern, message[, bindings]): first empty-interface parameter is the pattern, second the message
+				name := "pattern"
+				for _, q := range r {
+					if q.Name == "pattern" {
+						name = "fact"
+					}
+				}
+				r[i] = pta.RootSpec{Name: name, Levels: 2}
 			}
 		}
 		if len(r) < 2 {
